@@ -510,10 +510,17 @@ def run(ctx):
 def _stdlib_source(dotted):
     """syntax tree of a standard-library module, located without importing it"""
     import importlib.util
+    import os
+    import sysconfig
     spec = importlib.util.find_spec(dotted)
-    if spec is None or not spec.origin or not spec.origin.endswith(".py"):
+    path = spec.origin if spec is not None and spec.origin and spec.origin.endswith(".py") else None
+    if path is None:
+        # frozen standard-library modules (codecs, os, ...) still ship their source
+        cand = os.path.join(sysconfig.get_paths()["stdlib"], *dotted.split(".")) + ".py"
+        path = cand if os.path.exists(cand) else None
+    if path is None:
         return None
-    with open(spec.origin, encoding="utf-8") as fh:
+    with open(path, encoding="utf-8") as fh:
         return ast.parse(fh.read())
 
 
